@@ -127,10 +127,14 @@ func (p *Processor) resolveLfsRecords(ctx context.Context, records []sink.Record
 		close(results)
 	}()
 
+	var resolveErr error
 	for res := range results {
 		if res.err != nil {
 			metrics.LfsResolutionErrorsTotal.WithLabelValues(topic, "resolve").Inc()
 			log.Printf("lfs resolve failed topic=%s offset=%d: %v", topic, res.record.Offset, res.err)
+			if resolveErr == nil {
+				resolveErr = fmt.Errorf("lfs resolve offset %d: %w", res.record.Offset, res.err)
+			}
 			continue
 		}
 		if res.keep {
@@ -140,6 +144,11 @@ func (p *Processor) resolveLfsRecords(ctx context.Context, records []sink.Record
 			metrics.LfsResolvedTotal.WithLabelValues(topic).Inc()
 			metrics.LfsResolvedBytesTotal.WithLabelValues(topic).Add(float64(res.resolvedBytes))
 		}
+	}
+
+	if resolveErr != nil {
+		// Dropping the record here would let the caller commit a checkpoint past it.
+		return nil, resolveErr
 	}
 
 	filtered := make([]sink.Record, 0, len(records))
